@@ -61,14 +61,6 @@ Proof.
   rewrite (hsp_is_ws c Hc), (IH Hw). reflexivity.
 Qed.
 
-(** After a name: horizontal space then "(" "," "=" ":" or a line end. *)
-Lemma name_followb_hsp_then (w : str) c (r : str) : forallb is_hsp w = true -> is_hsp c = false ->
-  seg_start c = false -> name_followb (w ++ c :: r) = true.
-Proof.
-  intros Hw Hch Hc. unfold name_followb. rewrite (span_app is_hsp w (c :: r) Hw Hch). cbn [snd stopsb].
-  rewrite Hc. reflexivity.
-Qed.
-
 (** ** Heads of printed expressions *)
 Lemma print_name_head nm : name_ok nm = true -> exists c r, print_name nm = c :: r /\ opener c.
 Proof.
@@ -89,13 +81,14 @@ Proof.
   apply andb_true_iff in H as [He Hm]. apply negb_true_iff in Hl. exists c0, A'. repeat split; assumption.
 Qed.
 
-Lemma print_amt_head am : amt_ok am = true -> exists c r, print_amt am = c :: r /\ naked_edge c = true.
+Lemma print_amt_head am : amt_ok am = true -> exists c r, print_amt am = c :: r /\ expr_head c.
 Proof.
   intro H. destruct (amt_ok_parts am H) as [Hn _]. unfold print_amt.
-  destruct am as [rw p | t | t sp n v p | t w0 pw | t w0 p | t w0]; cbn [lead_ok amt_lead amt_num] in *.
+  destruct am as [rw p | t | t sp n v p | t w0 pw | t w0 p | t w0 | t w0 u w1 p]; cbn [lead_ok amt_lead amt_num] in *.
   1: { apply andb_true_iff in Hn as [_ Hn]. destruct (naked_textb_text _ Hn) as [c0 [A' [E [He _]]]]. rewrite E.
-       exists c0, (A' ++ amt_tail (AmRem rw p)). split; [reflexivity | exact He]. }
-  all: destruct (ntext_head t Hn) as [c [r [E Hc]]]; rewrite E; eexists c, _; split; [reflexivity | exact (digit_edge0 c Hc)].
+       exists c0, (A' ++ amt_tail (AmRem rw p)). split; [reflexivity | right; left; exact He]. }
+  6: { eexists 123, _. split; [reflexivity | left; right; right; reflexivity]. }
+  all: destruct (ntext_head t Hn) as [c [r [E Hc]]]; rewrite E; eexists c, _; split; [reflexivity | right; left; exact (digit_edge0 c Hc)].
 Qed.
 
 Lemma print_expr_head e : expr_ok e = true -> exists c r, print_expr e = c :: r /\ expr_head c.
@@ -103,7 +96,7 @@ Proof.
   destruct e as [[[am w]|] nm | nm w s0 first more trail s1 | s0 e acts s1]; cbn [expr_ok print_expr]; intro H.
   - apply andb_true_iff in H as [H _]. apply andb_true_iff in H as [H _].
     destruct (print_amt_head am H) as [c [r [E Hc]]]. rewrite E.
-    exists c, ((r ++ w) ++ print_name nm). split; [reflexivity | right; left; exact Hc].
+    exists c, ((r ++ w) ++ print_name nm). split; [reflexivity | exact Hc].
   - apply andb_true_iff in H as [H _]. destruct (print_name_head nm H) as [c [r [E Hc]]]. rewrite E.
     exists c, r. split; [reflexivity | left; exact Hc].
   - do 6 (apply andb_true_iff in H as [H _]). destruct (print_name_head nm H) as [c [r [E Hc]]]. rewrite E.
@@ -172,7 +165,7 @@ Proof.
     unfold p_reference. repeat rewrite <- app_assoc.
     assert (Ea : p_amount fuel (mkSt (print_amt am ++ w ++ print_name nm ++ k) o b) =
                  Got (amt_val am) (mkSt (w ++ print_name nm ++ k) (o + len (print_amt am)) b)).
-    { rewrite E. cbn [app]. exact (amount_roundtrip am w c _ o b fuel Ha Hw Hc'). }
+    { rewrite E. cbn [app]. apply (amount_roundtrip am w c _ o b fuel Ha Hw Hc'). unfold name_cost in Hc. lia. }
     rewrite Ea.
     assert (Hstop : stops is_hsp (print_name nm ++ k)) by (rewrite E; exact (opener_not_hsp c Hc')).
     rewrite (skip_hsp_run w _ _ b Hw Hstop).
@@ -242,10 +235,13 @@ Proof. destruct x; [contradiction | reflexivity]. Qed.
 
 (** The part of a number text a naked string would swallow: all of it, or -
     for a fraction - what precedes the "/" (then horizontal space [w'], "/"). *)
-Inductive num_shape (T : str) : Prop :=
-| ShapeWhole : naked_text T -> forallb amt_char T = true -> num_shape T
-| ShapeWhole2 : naked_text T -> num_shape T
-| ShapeSlash (Y w' R : str) : T = Y ++ w' ++ 47 :: R -> naked_text Y -> forallb is_hsp w' = true -> num_shape T.
+Inductive num_shape (T : str) (cst : nat) : Prop :=
+| ShapeWhole : naked_text T -> forallb amt_char T = true -> num_shape T cst
+| ShapeWhole2 : naked_text T -> num_shape T cst
+| ShapeBraced (bs : list bpart) (TT : str) : T = print_braced bs ++ TT -> bparts_ok bs = true ->
+    seg_cost (SB bs) = cst ->
+    (TT = [] \/ exists wp Q : str, TT = wp ++ Q /\ forallb is_hsp wp = true /\ naked_text Q) -> num_shape T cst
+| ShapeSlash (Y w' R : str) : T = Y ++ w' ++ 47 :: R -> naked_text Y -> forallb is_hsp w' = true -> num_shape T cst.
 
 Lemma zs_dec_digit_text k n : naked_text (zs k ++ dec_N n) /\ forallb amt_char (zs k ++ dec_N n) = true.
 Proof.
@@ -257,10 +253,10 @@ Proof.
   - exact (digits_amt_char _ Hd).
 Qed.
 
-Lemma ntext_shape t : ntext_ok t = true -> num_shape (ntext_str t).
+Lemma ntext_shape t : ntext_ok t = true -> num_shape (ntext_str t) O.
 Proof.
   intro Hok. destruct t as [z n | i f | zn n w2 zd d | zi i wi zn n w1 w2 zd d]; cbn [ntext_str ntext_ok] in *.
-  - destruct (zs_dec_digit_text z n) as [A B]. exact (ShapeWhole _ A B).
+  - destruct (zs_dec_digit_text z n) as [A B]. exact (ShapeWhole _ _ A B).
   - apply andb_true_iff in Hok as [Hok _]. apply andb_true_iff in Hok as [Hok Hf].
     apply andb_true_iff in Hok as [Hi Hin].
     assert (Hne : i <> []) by (destruct i; [discriminate|discriminate]).
@@ -274,10 +270,10 @@ Proof.
       * change (46 :: c :: f') with ([46] ++ c :: f'). rewrite last_app_nonempty by discriminate.
         apply digit_not_ws, last_digits; [discriminate | exact Hf].
   - destruct (zs_dec_digit_text zn n) as [A _].
-    apply (ShapeSlash _ (zs zn ++ dec_N n) [] (w2 ++ zs zd ++ dec_pos d)); [| exact A | reflexivity].
+    apply (ShapeSlash _ _ (zs zn ++ dec_N n) [] (w2 ++ zs zd ++ dec_pos d)); [| exact A | reflexivity].
     rewrite <- app_assoc. reflexivity.
   - repeat (apply andb_true_iff in Hok as [Hok ?H]).
-    apply (ShapeSlash _ (zs zi ++ dec_N i ++ wi ++ zs zn ++ dec_N n) w1 (w2 ++ zs zd ++ dec_pos d)).
+    apply (ShapeSlash _ _ (zs zi ++ dec_N i ++ wi ++ zs zn ++ dec_N n) w1 (w2 ++ zs zd ++ dec_pos d)).
     + repeat rewrite <- app_assoc. reflexivity.
     + assert (Hall : forallb amt_char (zs zi ++ dec_N i ++ wi ++ zs zn ++ dec_N n) = true).
       { rewrite app_assoc, forallb_app, (digits_amt_char _ (digits_zs_dec zi i)).
@@ -304,34 +300,130 @@ Proof.
       change (c0 :: A' ++ t0 :: T') with ((c0 :: A') ++ t0 :: T'). rewrite last_app_nonempty by discriminate. exact Hlast.
 Qed.
 
-Lemma amt_shape am : amt_ok am = true -> num_shape (print_amt am).
+Lemma ntext_not_braced t bs (TT : str) : ntext_ok t = true -> ntext_str t = print_braced bs ++ TT -> False.
+Proof.
+  intros Ht E. destruct (ntext_head t Ht) as [c [r [Eh Hc]]]. rewrite Eh in E. unfold print_braced in E.
+  cbn [app] in E. inversion E; subst. discriminate Hc.
+Qed.
+
+Lemma o_class_edge c : Units.lit_match_with true 111 c = true -> naked_edge c = true.
+Proof.
+  intro H. unfold Units.lit_match_with in H. apply UnitsScan.memN_In in H.
+  assert (T : forallb naked_edge (Units.ci_class 111) = true) by (vm_compute; reflexivity).
+  rewrite forallb_forall in T. exact (T c H).
+Qed.
+
+Lemma hsp_raw_ok_b (w : str) : forallb is_hsp w = true -> forallb raw_ok_b w = true.
+Proof.
+  apply forallb_impl. intros x H. unfold is_hsp, Units.is_hsp in H.
+  apply orb_true_iff in H as [H|H]; apply N.eqb_eq in H; subst; reflexivity.
+Qed.
+
+Lemma explicit_print t w0 u w1 :
+  hsp_run w0 = true -> hsp_run w1 = true ->
+  match u with Some (sp, q, x) => hsp_run sp && ((q =? 34) || (q =? 39)) && forallb (unit_char q) x | None => true end = true ->
+  print_bparts (explicit_bparts t w0 u w1) = w0 ++ ntext_str t ++ unit_text u ++ w1.
+Proof.
+  intros Hw0 Hw1 Hu.
+  assert (HT : forallb raw_ok_b (unit_text u ++ w1) = true).
+  { rewrite forallb_app. apply andb_true_iff. split; [|exact (hsp_raw_ok_b w1 Hw1)]. destruct u as [[[sp q] x]|]; [|reflexivity].
+    apply andb_true_iff in Hu as [Hu Hx]. apply andb_true_iff in Hu as [Hsp Hq]. cbn [unit_text].
+    assert (Hqb : raw_ok_b q = true) by (apply orb_true_iff in Hq as [H|H]; apply N.eqb_eq in H; subst; reflexivity).
+    rewrite forallb_app, (hsp_raw_ok_b sp Hsp). cbn [forallb]. rewrite Hqb, forallb_app. cbn [forallb]. rewrite Hqb.
+    rewrite (forallb_impl (unit_char q) raw_ok_b x); [reflexivity | | exact Hx].
+    intros y Hy. unfold unit_char in Hy. apply andb_true_iff in Hy. tauto. }
+  unfold explicit_bparts, print_bparts. rewrite flat_map_app. cbn [flat_map print_bpart].
+  assert (E0 : flat_map print_bpart (match w0 with [] => [] | _ :: _ => [BStr w0 []] end) = w0).
+  { destruct w0 as [|h w0']; [reflexivity|]. cbn [flat_map print_bpart]. rewrite app_nil_r.
+    exact (print_chars_raw raw_ok_b _ (hsp_raw_ok_b _ Hw0)). }
+  rewrite E0. f_equal. f_equal.
+  destruct (unit_text u ++ w1) as [|h T'] eqn:ET; [reflexivity|]. cbn [flat_map print_bpart]. rewrite app_nil_r.
+  exact (print_chars_raw raw_ok_b _ HT).
+Qed.
+
+Lemma amt_shape am : amt_ok am = true -> num_shape (print_amt am) (amt_cost am).
 Proof.
   intro Hok. destruct (amt_ok_parts am Hok) as [Hn HT]. unfold print_amt.
-  assert (G : forall t, amt_lead am = ntext_str t -> ntext_ok t = true -> num_shape (amt_lead am ++ amt_tail am)).
-  { intros t E Ht. rewrite E. destruct (ntext_shape t Ht) as [A B | A | Y w' R E' HY Hw'].
-    - exact (ShapeWhole2 _ (naked_text_app _ _ A HT)).
-    - exact (ShapeWhole2 _ (naked_text_app _ _ A HT)).
-    - apply (ShapeSlash _ Y w' (R ++ amt_tail am)); [|exact HY|exact Hw']. rewrite E'. repeat rewrite <- app_assoc. reflexivity. }
-  destruct am as [rw p | t | t sp n v p | t w0 pw | t w0 p | t w0]; cbn [lead_ok amt_lead amt_num] in *;
+  assert (G : forall t, amt_lead am = ntext_str t -> ntext_ok t = true -> num_shape (amt_lead am ++ amt_tail am) (amt_cost am)).
+  { intros t E Ht. rewrite E. destruct (ntext_shape t Ht) as [A B | A | bs TT E' _ _ _ | Y w' R E' HY Hw']; [ | | exfalso | ].
+    - exact (ShapeWhole2 _ _ (naked_text_app _ _ A HT)).
+    - exact (ShapeWhole2 _ _ (naked_text_app _ _ A HT)).
+    - exact (ntext_not_braced t bs TT Ht E').
+    - apply (ShapeSlash _ _ Y w' (R ++ amt_tail am)); [|exact HY|exact Hw']. rewrite E'. repeat rewrite <- app_assoc. reflexivity. }
+  destruct am as [rw p | t | t sp n v p | t w0 pw | t w0 p | t w0 | t w0 u w1 p]; cbn [lead_ok amt_lead amt_num] in *;
     try (exact (G _ eq_refl Hn)).
-  apply andb_true_iff in Hn as [_ Hn]. exact (ShapeWhole2 _ (naked_text_app _ _ (naked_textb_text _ Hn) HT)).
+  - apply andb_true_iff in Hn as [_ Hn]. exact (ShapeWhole2 _ _ (naked_text_app _ _ (naked_textb_text _ Hn) HT)).
+  - (* explicit quantity: a brace group, then the optional preposition *)
+    apply andb_true_iff in Hn as [Hn Hbp]. apply andb_true_iff in Hn as [Hn Hu].
+    apply andb_true_iff in Hn as [Hn Hw1]. apply andb_true_iff in Hn as [Ht Hw0].
+    apply (ShapeBraced _ _ (explicit_bparts t w0 u w1) (oprep_str p)); [ | exact Hbp | reflexivity | ].
+    + unfold print_braced. rewrite (explicit_print t w0 u w1 Hw0 Hw1 Hu). cbn [amt_tail]. norm_app. reflexivity.
+    + cbn [amt_tail] in HT. unfold amt_ok in Hok. apply andb_true_iff in Hok as [_ Hp]. cbn in Hp.
+      destruct p as [[w' pw]|]; [right | left; reflexivity]. cbn [oprep_ok oprep_str] in *.
+      apply andb_true_iff in Hp as [Hp Hpw]. apply andb_true_iff in Hp as [Hw' _].
+      exists w', (pword_str pw). split; [reflexivity|]. split; [exact Hw'|].
+      unfold tail_text_ok in HT. apply andb_true_iff in HT as [Hmid Hlast].
+      rewrite forallb_app in Hmid. apply andb_true_iff in Hmid as [_ Hmid].
+      assert (Ho : exists c0 A', pword_str pw = c0 :: A' /\ naked_edge c0 = true).
+      { destruct pw as [o | o w2 th]; cbn [pword_ok pword_str] in *.
+        - pose proof (ci_wordb_word _ _ Hpw) as W. inversion W as [|a c' w'' m' Hac _]; subst.
+          exists c', m'. split; [reflexivity | exact (o_class_edge c' Hac)].
+        - do 3 (apply andb_true_iff in Hpw as [Hpw _]). pose proof (ci_wordb_word _ _ Hpw) as W.
+          inversion W as [|a c' w'' m' Hac _]; subst. exists c', (m' ++ w2 ++ th). split; [reflexivity | exact (o_class_edge c' Hac)]. }
+      destruct Ho as [c0 [A' [E He]]]. exists c0, A'. rewrite E in *. cbn [forallb] in Hmid.
+      apply andb_true_iff in Hmid as [_ Hmid]. repeat split; [exact He | exact Hmid |].
+      destruct (w' ++ c0 :: A') as [|z Z] eqn:EZ; [destruct w'; discriminate EZ|].
+      cbn [is_nil orb] in Hlast. apply negb_true_iff in Hlast. rewrite <- EZ in Hlast.
+      rewrite last_app_nonempty in Hlast by discriminate. exact Hlast.
 Qed.
 
 (** Where a NAME tried on a reference text stops: at the end of the whole
     reference, or before the "/" of a fraction. *)
+Lemma naked_text_head_not_hsp (Q X : str) : naked_text Q -> stops is_hsp (Q ++ X).
+Proof.
+  intros [c0 [A' [-> [He _]]]]. cbn [app stops]. destruct (is_hsp c0) eqn:E; [|reflexivity].
+  unfold naked_edge in He. rewrite (hsp_is_ws c0 E), andb_false_r in He. discriminate He.
+Qed.
+
 Lemma p_name_on_reference a nm (k : str) fuel o b :
-  expr_ok (XRef a nm) = true -> name_followb k = true -> (S (name_cost nm) <= fuel)%nat ->
+  expr_ok (XRef a nm) = true -> name_followb k = true -> (S (name_cost nm + ref_amt_cost a) <= fuel)%nat ->
   exists v, p_name fuel (mkSt (print_expr (XRef a nm) ++ k) o b) = Got v (mkSt k (o + len (print_expr (XRef a nm))) b)
   \/ exists (w' R : str) o', forallb is_hsp w' = true /\
        p_name fuel (mkSt (print_expr (XRef a nm) ++ k) o b) = Got v (mkSt (w' ++ 47 :: R) o' b).
 Proof.
-  intros Hok Hk Hc. destruct a as [[am w]|]; cbn [expr_ok print_expr] in *.
+  intros Hok Hk Hc. destruct a as [[am w]|]; cbn [expr_ok print_expr ref_amt_cost] in *.
   - apply andb_true_iff in Hok as [Hok Hn]. apply andb_true_iff in Hok as [Ha Hw].
-    destruct (amt_shape am Ha) as [A B | A | Y w' R E HY Hw'].
+    destruct (amt_shape am Ha) as [A B | A | bs TT E Hbs Hcost HTT | Y w' R E HY Hw'].
     + eexists. left. unfold p_name. repeat rewrite <- app_assoc.
-      rewrite (p_string_naked_name (print_amt am) w nm fuel k o b A Hw Hn Hk Hc). reflexivity.
+      rewrite (p_string_naked_name (print_amt am) w nm fuel k o b A Hw Hn Hk) by lia. reflexivity.
     + eexists. left. unfold p_name. repeat rewrite <- app_assoc.
-      rewrite (p_string_naked_name (print_amt am) w nm fuel k o b A Hw Hn Hk Hc). reflexivity.
+      rewrite (p_string_naked_name (print_amt am) w nm fuel k o b A Hw Hn Hk) by lia. reflexivity.
+    + (* explicit quantity: read as a brace group, then on into the name *)
+      destruct fuel as [|f]; [lia|]. destruct nm as [first more].
+      set (nm := mkName first more) in *.
+      assert (F : (seg_cost (SB bs) <= f /\ S (name_cost nm) <= f)%nat).
+      { rewrite <- Hcost in Hc. cbn [seg_cost] in *. generalize dependent (name_cost nm). intros. lia. }
+      destruct F as [F2 F3]. assert (F1 : (name_cost nm <= f)%nat) by (generalize dependent (name_cost nm); intros; lia).
+      pose proof Hn as Hn0. unfold name_ok in Hn. unfold nm in Hn. cbn [nm_first nm_more] in Hn.
+      apply andb_true_iff in Hn as [Hf Hm].
+      destruct HTT as [-> | [wp [Q [-> [Hwp HQ]]]]].
+      * eexists. left. unfold p_name. rewrite E. repeat rewrite <- app_assoc.
+        rewrite p_string_unfold. change (print_braced bs) with (print_seg (SB bs)).
+        rewrite (segment_roundtrip (SB bs) _ o b f Hbs F2).
+        cbn [app]. destruct (print_name_head nm Hn0) as [c [r [Eh Hco]]].
+        assert (Hstop : stops is_hsp (print_name nm ++ k)) by (rewrite Eh; exact (opener_not_hsp c Hco)).
+        rewrite (skip_hsp_run w _ _ b Hw Hstop). cbn [fst snd]. unfold print_name, nm. cbn [nm_first nm_more].
+        rewrite <- app_assoc.
+        rewrite (p_string_name more first f k _ b Hf Hm Hk F1).
+        match goal with |- Got _ {| rest := _; off := ?x; bad := _ |} = Got _ {| rest := _; off := ?y; bad := _ |} =>
+          replace x with y by (repeat rewrite len_app; lia) end. reflexivity.
+      * eexists. left. unfold p_name. rewrite E. repeat rewrite <- app_assoc.
+        rewrite p_string_unfold. change (print_braced bs) with (print_seg (SB bs)).
+        rewrite (segment_roundtrip (SB bs) _ o b f Hbs F2).
+        rewrite (skip_hsp_run wp _ _ b Hwp (naked_text_head_not_hsp Q _ HQ)). cbn [fst snd].
+        rewrite (p_string_naked_name Q w nm f k _ b HQ Hw Hn0 Hk F3).
+        match goal with |- Got _ {| rest := _; off := ?x; bad := _ |} = Got _ {| rest := _; off := ?y; bad := _ |} =>
+          replace x with y by (repeat rewrite len_app; lia) end. reflexivity.
     + eexists. right. exists w', (R ++ w ++ print_name nm ++ k). eexists. split; [exact Hw'|].
       unfold p_name. rewrite E. repeat rewrite <- app_assoc. cbn [app].
       rewrite (p_string_naked_stop Y w' 47 fuel _ o b HY Hw' eq_refl eq_refl) by (unfold name_cost in Hc; lia). reflexivity.
@@ -347,7 +439,7 @@ Proof.
 Qed.
 
 Lemma p_step_fails_on_reference E a nm (k : str) fuel o b :
-  expr_ok (XRef a nm) = true -> expr_followb k = true -> (S (name_cost nm) <= fuel)%nat ->
+  expr_ok (XRef a nm) = true -> expr_followb k = true -> (S (name_cost nm + ref_amt_cost a) <= fuel)%nat ->
   p_step E fuel (mkSt (print_expr (XRef a nm) ++ k) o b) = Fail.
 Proof.
   intros Hok Hk Hc.
